@@ -51,8 +51,10 @@ def scan(ctx, report, facts, config, pfx="C19"):
                 continue  # ordering of plain numbers (running times, counts) is part of the documented heuristic
             # ids, or a generic element type that the placement code instantiates with ids
             bad.append((bb, c))
-        hu = I.hash_uses(b, ID_TYPES)
-        bad += hu
+        # explicit hashing anywhere in the placement cone (also through a generic helper): the value of a hash
+        # depends on the concrete type ids / dynamic ids, which the plan must not
+        if not (b.container == "trait_impl" and b.trait in ("std::hash::Hash", "core::hash::Hash")):
+            bad += I.explicit_hashing(b)
         report.ob(pfx + ".EQONLY", b.qname, not bad, "ids are only compared for equality / sorted for dedup" if not bad else
                   "an id is consulted through %s: the plan would depend on the (compiler-dependent) order or hash of ids" % bad[0][1].short(),
                   site=b.loc(bad[0][0]) if bad else b.loc(), config=config)
